@@ -516,8 +516,10 @@ they are listed in §8 with the property whose check found them.
   transfers that repeat the tag and leave the state out went to the link on their own (a1d507f, corpus
   C18/005; the table now keeps the post's tag, and so does the model).
   Not modelled: what the resuming attach exchanges (the unsettled maps), and in `TxnRoute` whether the named
-  transaction is live (that is `Amqp.Txn`, at the level of whole posts) — the two models are not yet composed
-  into one.
+  transaction is live (that is `Amqp.Txn`, at the level of whole posts). Routing and reassembly are composed
+  (`post_work_in_order`, `committed_post_is_the_post_as_written`: what the commit replays to a link is the
+  frame sequence the peer wrote, so the reassembly theorems hold for posted deliveries); routing and `Amqp.Txn`
+  are not yet one model.
 * The typed layer models the 32 list-encoded composites, the unions built from them, and messages
   (`Amqp/Message.lean`: sections in the order of the standard, the three body kinds, batches of data
   and amqp-sequence sections; `message_roundtrip`). `Body::Empty` is not a body of the AMQP type
